@@ -42,7 +42,7 @@ Proof. vm_compute. reflexivity. Qed.
    value — it neither raises nor runs out of fuel — with fuel len(data) + 3 (one unit per loop iteration / call): work proportional to
    the buffer whatever the bytes, and the result is spelled out (the successive 16- / 8-byte pieces of the announced part). *)
 From Coq Require Import ZArith List.
-From PS Require Import Model.Py Proofs.PyLemmas Proofs.PyParsers Proofs.PyTotal Proofs.PyTotal2 Gen.Tables Gen.PyFuncs.
+From PS Require Import Model.Py Proofs.PyLemmas Proofs.PyParsers Proofs.PyTotal Proofs.PyTotal2 Proofs.PyParsersRES Proofs.PyTotal3 Gen.Tables Gen.PyFuncs.
 Import ListNotations.
 
 Theorem C11_py_getlbastatus_every_input : forall (data : bytes) f, (length data + 3 <= f)%nat ->
@@ -95,6 +95,16 @@ Proof.
   pose proof (port_suffixes_length (Z.to_nat (tg_count R)) (skipn 8 R)) as H. rewrite skipn_length in H.
   eapply Nat.le_trans; [exact H|]. apply Nat.le_sub_l.
 Qed.
+
+
+(* READ ELEMENT STATUS — the most intricate decoder: a loop over element status pages (stride 8 + BYTE COUNT OF DESCRIPTOR DATA AVAILABLE, read
+   from the page), inside it a loop over element descriptors (stride ELEMENT DESCRIPTOR LENGTH, read from the page; the loop stops when that
+   is zero), five conditional parts per descriptor.  On EVERY byte string the regenerated body returns a value — it neither raises nor runs
+   out of fuel — within 2 len(data) + 4 units of fuel.  Proved with invariants that only say which variables hold bytes / dictionaries /
+   lists, and the unconsumed remainder as a decreasing measure in each loop (Proofs/PyTotal3.v, generic rule while_measure) *)
+Theorem C11_py_readelementstatus_every_input : forall (data : bytes) f, (2 * length data + 4 <= f)%nat ->
+  exists v, call_fun all_tables py_program f RES [PBytes data] = Ok v.
+Proof. exact readelementstatus_total. Qed.
 
 (* in particular: never the exception of a loop that does not end, for any bytes *)
 Theorem C11_py_no_divergence : forall (data : bytes),
